@@ -215,13 +215,21 @@ def canon(root) -> dict:
         el = order[i]
         i += 1
         attrs = []
+        members: list | None = []       # the dict itself, the 'name' member included: [key, [name, TYPE, is_array, values]]
         for key, attr in el._members.items():
-            if key == 'name':
-                continue
             typ = attr.type.name
             raw = attr._value if attr.is_array else [attr._value]
-            attrs.append([attr.name, typ, bool(attr.is_array), [_canon_value(typ, v, index_of) for v in raw]])
-        out.append({'type': el.type, 'name': el.name, 'uuid': el.uuid.hex, 'attrs': attrs})
+            if key == 'name':
+                if typ == 'ELEMENT':
+                    members = None       # not generated; the exporters never follow a reference held by the name member
+                elif members is not None:
+                    members.append([key, [attr.name, typ, bool(attr.is_array), [_canon_value(typ, v, index_of) for v in raw]]])
+                continue
+            rec = [attr.name, typ, bool(attr.is_array), [_canon_value(typ, v, index_of) for v in raw]]
+            attrs.append(rec)
+            if members is not None:
+                members.append([key, rec])
+        out.append({'type': el.type, 'name': el.name, 'uuid': el.uuid.hex, 'attrs': attrs, 'members': members})
     return {'elems': out, 'refs': refs}
 
 
